@@ -473,6 +473,7 @@ type modLoc struct {
 	obj, idx *Term
 	allIdx   bool
 	mapT     *types.Map // map contents of this map ref (obj)
+	anyObj   bool       // every object of this root type (whole heap family)
 	src      string
 }
 
@@ -495,6 +496,10 @@ func (c *FnCtx) havocLoc(st *State, loc modLoc) {
 	for i := loc.lo; i < loc.hi; i++ {
 		fam := heapFam(loc.root, i)
 		h := c.get(st, fam, heapSort(rl[i].Sort))
+		if loc.anyObj {
+			c.set(st, fam, c.fresh("hv", heapSort(rl[i].Sort)))
+			continue
+		}
 		if loc.allIdx {
 			c.set(st, fam, Store(h, loc.obj, c.fresh("hv", ArrS(SInt, rl[i].Sort))))
 		} else {
@@ -510,6 +515,9 @@ func inLocs(locs []modLoc, root types.Type, leaf int, obj, idx *Term) *Term {
 	for _, l := range locs {
 		if l.mapT != nil || rootKey(l.root) != rk || leaf < l.lo || leaf >= l.hi {
 			continue
+		}
+		if l.anyObj {
+			return TTrue
 		}
 		if l.allIdx {
 			alts = append(alts, Eq(obj, l.obj))
